@@ -78,3 +78,18 @@ def predicted_execs(world, ops):
 
 def points_of(world, dtid):
     return [p for p in gen.all_points(world) if p['dtid'] == dtid]
+
+
+def single_fault_variants(base, dtid, faults_for_point):
+    """every single cooperative fault of a doctest: one explicit scenario per
+    (point, fault) pair.  ``faults_for_point(p)`` -> list of fault dicts
+    (without dt/k/pid)."""
+    import copy
+    out = []
+    for p in points_of(base['world'], dtid):
+        for f in faults_for_point(p):
+            v = copy.deepcopy(base)
+            g = dict(f, dt=dtid, k=0, pid=p['pid'])
+            v['plan'] = [x for x in v.get('plan', []) if 'import' in x] + [g]
+            out.append(v)
+    return out
